@@ -279,6 +279,15 @@ class Workbook:
         self.model = out.value
         self.evaluators = {}
 
+    @classmethod
+    def adopt(cls, other, model):
+        """A model obtained otherwise (restored from a file, extracted) in the world and with the library models of `other`."""
+        self = cls.__new__(cls)
+        self.ctx, self.world, self.models = other.ctx, other.world, other.models
+        self.model = model
+        self.evaluators = {}
+        return self
+
     def _run(self, module, env, src):
         it = Interp(self.ctx.a, module, env, inline_pkg=True, world=self.world, call_models=self.models)
         self.last = it
